@@ -391,6 +391,31 @@ func init() {
 		b := it.rtypeArg(fr, u.v)
 		return mkBool(types.ConvertibleTo(a.t, b.t))
 	}
+	intrinsics["(*reflect.rtype).AssignableTo"] = func(it *Interp, fr *frame, args []Value) Value {
+		a := it.rtypeArg(fr, args[0])
+		u := args[1].(Iface)
+		if u.t == nil {
+			it.goPanicf(fr, "reflect: nil type passed to Type.AssignableTo")
+		}
+		b := it.rtypeArg(fr, u.v)
+		return mkBool(types.AssignableTo(a.t, b.t))
+	}
+	intrinsics["(*reflect.rtype).Implements"] = func(it *Interp, fr *frame, args []Value) Value {
+		a := it.rtypeArg(fr, args[0])
+		u := args[1].(Iface)
+		if u.t == nil {
+			it.goPanicf(fr, "reflect: nil type passed to Type.Implements")
+		}
+		b := it.rtypeArg(fr, u.v)
+		iface, ok := b.t.Underlying().(*types.Interface)
+		if !ok {
+			it.goPanicf(fr, "reflect: non-interface type passed to Type.Implements")
+		}
+		return mkBool(types.Implements(a.t, iface))
+	}
+	intrinsics["(*reflect.rtype).Comparable"] = func(it *Interp, fr *frame, args []Value) Value {
+		return mkBool(types.Comparable(it.rtypeArg(fr, args[0]).t))
+	}
 	intrinsics["(*reflect.rtype).Elem"] = func(it *Interp, fr *frame, args []Value) Value {
 		a := it.rtypeArg(fr, args[0])
 		if a.elem == nil {
